@@ -4,13 +4,16 @@
 mod verif_kani {
     use super::*;
 
-    /// stub of get_row_at_idx: row i is the one-column row [UInt64(i)]
+    /// stub of get_row_at_idx: no Arrow access and no ScalarValue is built (constructing and dropping a
+    /// Vec<ScalarValue> per probe made CBMC run for more than 15 minutes); the index of the row just fetched is
+    /// recorded instead, and the comparison closures of the harnesses read it (`with_capacity(1)`: with an unallocated
+    /// `Vec::new()` Kani 0.68 reports spurious `__rust_dealloc` failures)
+    static mut LAST_ROW: usize = 0;
     fn stub_row(_columns: &[ArrayRef], idx: usize) -> Result<Vec<ScalarValue>> {
-        Ok(vec![ScalarValue::UInt64(Some(idx as u64))])
+        unsafe { LAST_ROW = idx; }
+        Ok(Vec::with_capacity(1))
     }
-    fn row_index(row: &[ScalarValue]) -> usize {
-        match &row[0] { ScalarValue::UInt64(Some(i)) => *i as usize, _ => 0 }
-    }
+    fn row_index(_row: &[ScalarValue]) -> usize { unsafe { LAST_ROW } }
     const N: usize = 5;
 
     /// search_in_slice: first row of [low, high) failing the predicate (or high); arbitrary predicate over 9 rows
